@@ -170,9 +170,9 @@ func caseFoldInjective(s string) bool {
 }
 
 func checkC08(w *World, r *Report) {
-	r.Explanation = "Decides the table-level facts of the selectable codecs: (R08.1) every alphabet constant handed to a NewEncoding constructor, and every constant string indexed by data on an Encode path, has exactly radix-many pairwise distinct symbols none of which is a dot, backslash, space or control character; (R08.2) the registry used by FromCode lists every package-level codec, codes are pairwise distinct upper-case constants; (R08.3) Encode and Decode of a table-driven codec use the same encoding object; (R08.4) Base85's byte substitutions remove exactly the forbidden bytes ascii85 can emit, map them outside ascii85's alphabet, and Decode applies the inverse map; (R08.5) the written-length results of ascii85.Encode/Decode are used to cut the maximum-sized buffer. Not decided — and this is most of the property: round-trip equality and expansion bounds of the hand-written bit packers (Base128, Base192) and of the arithmetic codecs."
-	r.NotDecided = []string{"round-trip equality for all inputs (Base128 extra symbol at len%7==0, Base192 byte range are visible by reading but not soundly decidable here)", "Ratio() expansion bounds", "encoding/base32, base64, ascii85, mtraver/base91 library behaviour"}
-	r.Trusted = []string{"encoding/base32, encoding/base64, encoding/ascii85, github.com/mtraver/base91 implement their alphabets faithfully", "ascii85 emits bytes '!'..'u' and 'z' only"}
+	r.Explanation = "Decides the table-level facts of the selectable codecs: (R08.1) every alphabet constant handed to a NewEncoding constructor, and every constant string indexed by data on an Encode path, has exactly radix-many pairwise distinct symbols none of which is a dot, backslash, space or control character; (R08.2) the registry used by FromCode lists every package-level codec, codes are pairwise distinct upper-case constants; (R08.3) Encode and Decode of a table-driven codec use the same encoding object; (R08.4) Base85's byte substitutions remove exactly the forbidden bytes ascii85 can emit, map them outside ascii85's alphabet, and Decode applies the inverse map; (R08.5) the written-length results of ascii85.Encode/Decode are used to cut the maximum-sized buffer. (R08.9) for every selectable codec whose output length is a function of the input length under the length abstraction A11 (lengths, counters and bit-window positions known, contents unknown: Base128, Raw), Decode accepts exactly the lengths Encode produces and returns the input length, and the output is at most ceil(n*Ratio())+1 long, for input lengths 0..64 and by the affine period of the abstract loop state beyond. Not decided — and this is most of the property: round-trip equality and expansion bounds of the hand-written bit packers (Base128, Base192) and of the arithmetic codecs."
+	r.NotDecided = []string{"equality of the decoded contents for all inputs (R08.9 decides the length algebra of the hand-written packers only); Base192 (registered, never selected by this module, its own test disabled) is outside the claim", "Ratio() expansion bounds of codecs whose output length depends on the contents or on library code", "encoding/base32, base64, ascii85, mtraver/base91 library behaviour"}
+	r.Trusted = []string{"encoding/base32, encoding/base64, encoding/ascii85, github.com/mtraver/base91 implement their alphabets faithfully", "ascii85 emits bytes '!'..'u' and 'z' only", "luci base128.DecodeString returns n*7/8 bytes and refuses n unless (n*7/8*8+6)/7 == n (transcribed from the library source as a length model)"}
 	r.Rule("R08.1", "alphabets well-formed and DNS-safe", 5)
 	r.Rule("R08.2", "codec registry complete; codes distinct, constant, upper-case", 9)
 	r.Rule("R08.3", "Encode and Decode use the same encoding object", 4)
@@ -958,6 +958,24 @@ func c08LengthAlgebra(w *World, r *Report) {
 			}
 			if bad != "" {
 				break
+			}
+		}
+		// size budgets: the output is at most ceil(n*Ratio())+1 symbols long
+		if fd := w.Decl(methodOf(n, "Ratio")); fd != nil && bad == "" {
+			ratio := -1.0
+			ast.Inspect(fd.Body, func(x ast.Node) bool {
+				if rs, ok := x.(*ast.ReturnStmt); ok && len(rs.Results) == 1 {
+					if v := constVal(encPkg.TypesInfo, rs.Results[0]); v != nil {
+						ratio, _ = constant.Float64Val(constant.ToFloat(v))
+					}
+				}
+				return true
+			})
+			for i, m := range ep.Out {
+				if ratio > 0 && float64(m) > math.Ceil(float64(lengths[i])*ratio)+1 {
+					bad = fmt.Sprintf("Encode turns %d byte(s) into %d symbol(s), more than ceil(%d*%.4f)+1 which the advertised Ratio() allows: size budgets computed from the ratio overrun", lengths[i], m, lengths[i], ratio)
+					break
+				}
 			}
 		}
 		// periodic abstract state: every loop head of Encode repeats (affinely) within a third of the explored range
